@@ -1,1 +1,197 @@
-Example C08_placeholder : True. Proof. exact I. Qed.
+(* Properties_C08.v — C08: a parse depends only on its own input, not on earlier parses.
+   Stated on the scanner bookkeeping of the model (coq/Lexer.v, coq/Parser.v): the flex buffer stack,
+   the include stack, the scratch buffer, the pending-read-error flag and the count of FILEs that
+   includes opened.  Proofs are in coq/BalanceProofs.v. *)
+From Coq Require String.
+Import String.StringSyntax.
+From Coq Require Import List Arith NArith ZArith Bool.
+From Coq.Strings Require Import Byte.
+From LC Require Import Bytes Consts Conv Flex LexAct Lexer Files Store Parser ApiProofs BalanceProofs.
+Import ListNotations.
+Local Open Scope string_scope.
+Local Open Scope list_scope.
+
+(* quiescent l := l_bufs l = [] /\ l_inc l = [] /\ l_q l = q_empty /\ l_rderr l = false
+   lex_wf l    := every include frame names a buffer id below l_next l
+   Bal base inc0 next0 r0 open0 m (l, n) :=
+     l_bufs l = tops ++ base, l_inc l = frames ++ inc0, |tops| = |frames| + m, every buffer of tops and every
+     frame of frames was created since the start (id >= next0, < l_next l), n = open0 + |frames|,
+     frames = [] or |frames ++ inc0| <= MAX_INCLUDE_DEPTH, and the read-error flag is set only if r0.
+   m counts the parse's own buffer plus the default-value scans in progress. *)
+
+(* (1) STACK DISCIPLINE.  cfg_setopt, cfg_init_defaults and cfg_parse_internal (with every include, nested
+   default-value scan, error exit and fuel exhaustion inside them) never touch the buffers [base] and
+   the include frames [inc0] they found, pop exactly what they pushed, and keep the FILE count in step. *)
+Theorem C08_stack_discipline :
+  forall strtod_o base inc0 next0 r0 open0,
+  Forall (fun f => i_buf f < next0) inc0 ->
+  forall fuel,
+  (forall m w c o txt, Bal base inc0 next0 r0 open0 m (lx w) ->
+     Bal base inc0 next0 r0 open0 m (lx (fst (fst (setopt strtod_o fuel w c o txt))))) /\
+  (forall m w c, Bal base inc0 next0 r0 open0 m (lx w) ->
+     Bal base inc0 next0 r0 open0 m (lx (fst (init_defaults strtod_o fuel w c)))) /\
+  (forall m w c l p, 1 <= m -> Bal base inc0 next0 r0 open0 m (lx w) ->
+     Bal base inc0 next0 r0 open0 m (lx (fst (fst (parse_internal strtod_o fuel w c l p))))).
+Proof. exact stack_discipline. Qed.
+Print Assumptions C08_stack_discipline.
+
+(* (2) cfg_parse_fp hands the scanner back exactly as it found it — for every content (Some text, or None:
+   a stream that cannot be read), context, fuel and outcome. *)
+Theorem C08_parse_restores_scanner :
+  forall strtod_o fuel w c content,
+  lex_wf (w_lex w) ->
+  let w' := fst (fst (parse_fp_gen strtod_o fuel w c content)) in
+  l_bufs (w_lex w') = l_bufs (w_lex w) /\
+  l_inc (w_lex w') = l_inc (w_lex w) /\
+  l_q (w_lex w') = q_empty /\
+  w_open w' = w_open w /\
+  l_next (w_lex w) <= l_next (w_lex w') /\
+  (l_rderr (w_lex w') = true -> content = None).
+Proof. exact parse_fp_gen_restores. Qed.
+Print Assumptions C08_parse_restores_scanner.
+
+Theorem C08_parse_ends_quiescent :
+  forall strtod_o fuel w c content,
+  quiescent (w_lex w) -> (content <> None \/ 2 <= fuel) ->
+  let '(w', c', rc) := parse_fp_gen strtod_o fuel w c content in
+  quiescent (w_lex w') /\ w_open w' = w_open w.
+Proof. exact parse_fp_gen_quiescent. Qed.
+Print Assumptions C08_parse_ends_quiescent.
+
+(* without the side condition everything but the read-error flag: the only run that leaves the flag set is
+   the model run of an unreadable stream with fuel < 2, which stops before the first token is scanned *)
+Theorem C08_parse_ends_quiescent_any_fuel :
+  forall strtod_o fuel w c content,
+  quiescent (w_lex w) ->
+  let '(w', c', rc) := parse_fp_gen strtod_o fuel w c content in
+  quiescent0 (w_lex w') /\ w_open w' = w_open w.
+Proof. exact parse_fp_gen_quiescent0. Qed.
+Print Assumptions C08_parse_ends_quiescent_any_fuel.
+
+Theorem C08_parse_fp_ends_quiescent :
+  forall strtod_o fuel w c content,
+  quiescent (w_lex w) ->
+  let '(w', c', rc) := parse_fp strtod_o fuel w c content in
+  quiescent (w_lex w') /\ w_open w' = w_open w.
+Proof. exact parse_fp_quiescent. Qed.
+Print Assumptions C08_parse_fp_ends_quiescent.
+
+Theorem C08_parse_buf_ends_quiescent :
+  forall strtod_o fuel w c buf,
+  quiescent (w_lex w) ->
+  let '(w', c', rc) := parse_buf strtod_o fuel w c buf in
+  quiescent (w_lex w') /\ w_open w' = w_open w.
+Proof. exact parse_buf_quiescent. Qed.
+Print Assumptions C08_parse_buf_ends_quiescent.
+
+Theorem C08_parse_file_ends_quiescent :
+  forall strtod_o fuel w c filename,
+  quiescent (w_lex w) ->
+  let '(w', c', rc) := parse_file strtod_o fuel w c filename in
+  quiescent (w_lex w') /\ w_open w' = w_open w.
+Proof. exact parse_file_quiescent. Qed.
+Print Assumptions C08_parse_file_ends_quiescent.
+
+Theorem C08_initial_state_quiescent : quiescent lex_init.
+Proof. exact quiescent_init. Qed.
+Print Assumptions C08_initial_state_quiescent.
+
+(* (4) the one thing an abandoned scan leaves behind — the start condition — is overwritten before the
+   next parse scans anything: two worlds that differ at most there give the SAME result *)
+Theorem C08_history_free :
+  forall strtod_o fuel w1 w2 c content,
+  world_agree w1 w2 ->
+  parse_fp_gen strtod_o fuel w1 c content = parse_fp_gen strtod_o fuel w2 c content.
+Proof. exact parse_fp_gen_history_free. Qed.
+Print Assumptions C08_history_free.
+
+Theorem C08_history_free_components :
+  forall strtod_o fuel w1 w2 c content,
+  world_agree w1 w2 ->
+  let '(w1', c1', rc1) := parse_fp_gen strtod_o fuel w1 c content in
+  let '(w2', c2', rc2) := parse_fp_gen strtod_o fuel w2 c content in
+  c1' = c2' /\ rc1 = rc2 /\ world_agree w1' w2'.
+Proof. exact parse_fp_gen_history_free'. Qed.
+Print Assumptions C08_history_free_components.
+
+Theorem C08_history_free_buf :
+  forall strtod_o fuel w1 w2 c buf,
+  world_agree w1 w2 ->
+  let '(w1', c1', rc1) := parse_buf strtod_o fuel w1 c buf in
+  let '(w2', c2', rc2) := parse_buf strtod_o fuel w2 c buf in
+  c1' = c2' /\ rc1 = rc2 /\ world_agree w1' w2'.
+Proof. exact parse_buf_history_free. Qed.
+Print Assumptions C08_history_free_buf.
+
+(* (5) cfg_free of the root context resets the scanner *)
+Theorem C08_free_resets :
+  forall w c, c_name c = M "root" ->
+  l_sc (w_lex (cfg_free w c)) = INITIAL /\ l_bufs (w_lex (cfg_free w c)) = [].
+Proof. exact cfg_free_resets. Qed.
+Print Assumptions C08_free_resets.
+
+(* ---------- examples ---------- *)
+Definition B := bs_of_string.
+Definition sd := ex_sd.
+Definition oi := Opt (B "i") KInt 0 [] [] defv0 None cbset0.
+Definition os := Opt (B "s") KStr 0 [] [] defv0 None cbset0.
+Definition cbinc : cbset :=
+  {| cb_parse := None; cb_valid := None; cb_valid2 := None; cb_print := None; cb_free := false; cb_func := Some FInclude |}.
+Definition oinc := Opt (B "include") KFunc 0 [] [] defv0 None cbinc.
+Definition fs0 : fsys :=
+  {| fs_root := B "/R";
+     fs_ents := [(B "bad.conf", FFile (B "s = ""never closed"));
+                 (B "loop.conf", FFile (B "include(""loop.conf"")"));
+                 (B "good.conf", FFile (B "i = 7"))] |}.
+Definition w0 : pw :=
+  {| w_lex := lex_init; w_env := []; w_fs := fs0;
+     w_pw := {| pw_tab := []; pw_self := None |}; w_path := []; w_cbs := []; w_cnt := 0; w_failat := 0;
+     w_nextptr := 1; w_diags := []; w_open := 0; w_crash := None; w_oof := false |}.
+Definition init := cfg_init sd 50 w0 [oi; os; oinc] 0.
+Definition wI := fst init.
+Definition root := snd init.
+Definition run (w : pw) (c : cfg) (t : String.string) := parse_buf sd 300 w c (Some (B t)).
+
+(* what is left of the scanner: start condition, buffers, frames, scratch buffer, read error, open FILEs *)
+Definition left_over (r : pw * cfg * Z) :=
+  let '(w, c, rc) := r in
+  (rc, l_sc (w_lex w), l_bufs (w_lex w), l_inc (w_lex w), l_q (w_lex w), l_rderr (w_lex w), w_open w, w_oof w).
+Definition getint (c : cfg) : list value :=
+  match c_opts c with o :: _ => o_vals o | [] => [] end.
+
+(* a text that ends inside a string is rejected; only the start condition survives ... *)
+Example C08_ex_unterminated_string :
+  left_over (run wI root "s = ""abc") = (CFG_PARSE_ERROR, dq_str, [], [], q_empty, false, 0, false).
+Proof. vm_compute. reflexivity. Qed.
+
+Example C08_ex_unterminated_comment :
+  left_over (run wI root "i = 5 /* open") = (CFG_PARSE_ERROR, comment, [], [], q_empty, false, 0, false).
+Proof. vm_compute. reflexivity. Qed.
+
+(* ... and the next parse does not see it: same context, same return code as on the fresh scanner *)
+Example C08_ex_then_good :
+  let '(wbad, _, _) := run wI root "s = ""abc" in
+  let '(w1, c1, rc1) := run wbad root "i = 5 s = 'x'" in
+  let '(w2, c2, rc2) := run wI root "i = 5 s = 'x'" in
+  rc1 = CFG_SUCCESS /\ rc2 = CFG_SUCCESS /\ c1 = c2 /\ getint c1 = [VInt 5] /\
+  left_over (w1, c1, rc1) = (CFG_SUCCESS, INITIAL, [], [], q_empty, false, 0, false).
+Proof. vm_compute. repeat split; reflexivity. Qed.
+
+(* an error inside an included file: both buffers and the frame are gone, the FILE is closed *)
+Example C08_ex_error_in_include :
+  left_over (run wI root "include(""bad.conf"")") = (CFG_PARSE_ERROR, dq_str, [], [], q_empty, false, 0, false).
+Proof. vm_compute. reflexivity. Qed.
+
+(* out of fuel in the middle of the text *)
+Example C08_ex_out_of_fuel :
+  left_over (parse_buf sd 3 wI root (Some (B "i = 5 s = 'x'"))) = (CFG_PARSE_ERROR, INITIAL, [], [], q_empty, false, 0, true).
+Proof. vm_compute. reflexivity. Qed.
+
+(* an unreadable stream: the read error is reported and consumed ... *)
+Example C08_ex_unreadable :
+  left_over (parse_fp_gen sd 2 wI root None) = (CFG_PARSE_ERROR, INITIAL, [], [], q_empty, false, 0, false).
+Proof. vm_compute. reflexivity. Qed.
+(* ... unless the model run is starved of fuel before the first token (why C08_parse_ends_quiescent asks 2 <= fuel) *)
+Example C08_ex_unreadable_starved :
+  left_over (parse_fp_gen sd 1 wI root None) = (CFG_PARSE_ERROR, INITIAL, [], [], q_empty, true, 0, true).
+Proof. vm_compute. reflexivity. Qed.
